@@ -81,7 +81,7 @@ def requests(L, wrapped, rng, per_fn):
     def add(r, s):
         r = r.copy(); m = r['s'] >= 0; r['s'][m] += len(strs); strs.extend(s); reqs.append(r)
     for name in wrapped:
-        add(*L.build(name, *numeric_columns(L, name, rng, per_fn, STRS)))
+        add(*L.build(name, *numeric_columns(L, name, rng, per_fn, STRS + [None])))      # None: a NULL C string, which the const char* call path can carry
     k = max(200, per_fn // 10)
     pick = lambda dom, n=k: [dom[i] for i in rng.integers(0, len(dom), n)]
     hk = lambda n=k: rng.integers(-2, 4, n)
@@ -152,6 +152,21 @@ def main(tier):
         parts = np.array_split(rng.permutation(len(req)), common.NCPU)
         with ThreadPoolExecutor(common.NCPU) as ex:
             res = list(ex.map(lambda kp: run_part(mon, req[kp[1]], strs, 'asan', scenario=(kp[0] == 0)), list(enumerate(parts))))
+        # the wrappers are a header: they are compiled by whatever compiler the user has. A quarter of the requests again through a monitor
+        # built with clang++ (plain build: the differential verdicts only), where e.g. the evaluation order of call arguments is the other one
+        if config == 'shipped':
+            monc = build.cppmon(config, 'plain', compiler='clang++')
+            sub = parts[0][:max(1, len(parts[0]))]
+            with ThreadPoolExecutor(4) as ex:
+                resc = list(ex.map(lambda idx: run_part(monc, req[idx], strs, 'plain'), np.array_split(np.concatenate(parts[:4]), 4)))
+            for r in resc:
+                if r['rc'] != 0:
+                    ck.violation('crash:cppmon-clang:rc%d' % r['rc'], 'C++ monitor built with clang++ died', dict(config=config, tail=r['tail']))
+                for x in r['recs']:
+                    if x['type'] == 'viol' and not x['key'].startswith('harness:'):
+                        ck.violation(x['key'] + ':clang++', x['what'] + ' (wrappers compiled with clang++)', dict(call=x['witness'], count=x['count'], config=config, compiler='clang++'))
+                    elif x['type'] == 'summary':
+                        tot['clang_requests'] = tot.get('clang_requests', 0) + x['requests']
         for r in res:
             for rep in r['reports']:
                 ck.violation('%s:%s' % (rep['kind'], rep['func']), '%s in %s while driving the C++ wrappers' % (rep['kind'], rep['func']), dict(config=config, report=rep['text'][:1500]))
@@ -167,7 +182,7 @@ def main(tier):
                     for k in s:
                         s[k] += x[k]
                 elif x['type'] == 'summary':
-                    for k in tot:
+                    for k in ('requests', 'skipped', 'leakchecks'):
                         tot[k] += x[k]
                     if x.get('scenario_accepted', -1) >= 0:
                         scen['accepted'] += x['scenario_accepted']; scen['refused'] += x['scenario_refused']
@@ -191,5 +206,5 @@ def main(tier):
                     'field by field, exception type and what() against the C code and message; ASan allocation balance around both paths (3-repetition rule), '
                     'object wrappers used after the C originals are released; allocation failpoints (every library allocation of 34 C/wrapper scenario pairs failed in turn, in forked children: where C reports XRL_ERROR_MEMORY the wrapper must throw bad_alloc and neither side may leak); distinct = (wrapper, outcome class) pairs observed',
                samples=[dict(wrapper=k, **v) for k, v in sorted(stats.items())][:10], wrappers_driven=len(stats), wrappers_found_by_probe=len(wrapped_names),
-               leak_rechecks=tot['leakchecks'], addcrystal_scenario=scen, allocation_failpoints=fail, requests_skipped_null_string=tot['skipped'], per_wrapper=stats)
+               leak_rechecks=tot['leakchecks'], addcrystal_scenario=scen, allocation_failpoints=fail, requests_through_clang_built_monitor=tot.get('clang_requests', 0), requests_skipped_null_string=tot['skipped'], per_wrapper=stats)
     return ck.finish(cov, ['g++ -std=c++11 -fsanitize=address,undefined', 'std::string cannot express a NULL compound: those tuples are skipped'])
